@@ -3,6 +3,7 @@ import ast
 import itertools
 
 from ..core import astutil as A
+from ..core import match as M
 from ..core.model import dotted
 from ..core.report import AnalysisError
 
@@ -15,9 +16,28 @@ MOD = "pkgcore.ebuild.keywording"
 PASS = {"list", "tuple", "sorted", "sort_keywords", "frozenset", "set"}
 
 
+def eff(stmts):
+    """statements that do something: no `pass`, bare constants (docstrings, no-ops), logging calls"""
+    out = []
+    for s in stmts:
+        if isinstance(s, ast.Pass):
+            continue
+        if isinstance(s, ast.Expr):
+            v = s.value
+            if isinstance(v, ast.Constant):
+                continue
+            if isinstance(v, ast.Call) and (dotted(v.func) or "").startswith(("logger.", "logging.", "warnings.")):
+                continue
+        out.append(s)
+    return out
+
+
 class Taint:
-    def __init__(self, ctx, fn):
+    def __init__(self, ctx, fn, valid, carried):
+        """valid: current spelling of the reference set (`frozenset(repo.known_arches)`), carried: loop-carried
+        arch collections (what a '^' line copies) — both located by role in run()"""
         self.ctx, self.fn = ctx, fn
+        self.valid, self.carried = valid, carried
         self.yields = []
         self.prev_ok = True
         self.barriers = 0
@@ -33,7 +53,7 @@ class Taint:
             return self.ev(e.args[0], st)
         if isinstance(e, (ast.ListComp, ast.GeneratorExp, ast.SetComp)) and len(e.generators) == 1:
             g = e.generators[0]
-            if any(isinstance(c, ast.Compare) and isinstance(c.ops[0], ast.In) and A.unparse(c.comparators[0]) == "valid_arches" and A.unparse(c.left) == A.unparse(g.target) for c in g.ifs):
+            if any(isinstance(c, ast.Compare) and isinstance(c.ops[0], ast.In) and A.unparse(c.comparators[0]) == self.valid and A.unparse(c.left) == A.unparse(g.target) for c in g.ifs):
                 return True
             if isinstance(e.elt, ast.Name) and isinstance(g.target, ast.Name) and e.elt.id == g.target.id:
                 return self.ev(g.iter, st)
@@ -47,10 +67,10 @@ class Taint:
                 return None
             if isinstance(s, ast.Assign) and len(s.targets) == 1 and isinstance(s.targets[0], ast.Name):
                 v = self.ev(s.value, st)
-                if s.targets[0].id == "previous":
+                if s.targets[0].id in self.carried:
                     self.prev_ok = self.prev_ok and v
                     self.ctx.check("R1", self.fn, v, "previous-validated", "`previous` (what '^' copies) is only ever set from validated keywords", "`previous` is set from unvalidated keywords: a '^' line copies unchecked arches", node=s)
-                    st["previous"] = True
+                    st[s.targets[0].id] = True
                 else:
                     st[s.targets[0].id] = v
                 continue
@@ -68,7 +88,7 @@ class Taint:
             if isinstance(s, ast.If):
                 t = s.test
                 # validation barrier
-                if isinstance(t, ast.NamedExpr) and isinstance(t.value, ast.BinOp) and isinstance(t.value.op, ast.Sub) and A.unparse(t.value.right) == "valid_arches" and any(isinstance(x, ast.Raise) for x in s.body):
+                if isinstance(t, ast.NamedExpr) and isinstance(t.value, ast.BinOp) and isinstance(t.value.op, ast.Sub) and A.unparse(t.value.right) == self.valid and any(isinstance(x, ast.Raise) for x in s.body):
                     inner = t.value.left
                     if isinstance(inner, ast.Call) and dotted(inner.func) in ("frozenset", "set") and isinstance(inner.args[0], ast.Name):
                         st[inner.args[0].id] = True
@@ -96,7 +116,7 @@ class Taint:
         return st
 
 
-def only_new_table(fn, comp):
+def only_new_table(fn, comp, pkg):
     """rows (A: k stable here, B: ~k here, S: stabilizing) -> kept?"""
     g = comp.generators[0]
     var = g.target.id
@@ -131,7 +151,7 @@ def only_new_table(fn, comp):
             return all(vs) if isinstance(e.op, ast.And) else any(vs)
         if isinstance(e, ast.UnaryOp) and isinstance(e.op, ast.Not):
             return not boolval(e.operand, Aq, Bq, S)
-        if isinstance(e, ast.Compare) and len(e.ops) == 1 and isinstance(e.ops[0], (ast.In, ast.NotIn)) and A.unparse(e.comparators[0]) == "pkg.keywords":
+        if isinstance(e, ast.Compare) and len(e.ops) == 1 and isinstance(e.ops[0], (ast.In, ast.NotIn)) and A.unparse(e.comparators[0]) == f"{pkg}.keywords":
             s = strval(e.left, S)
             if s == "k":
                 m = Aq
@@ -155,36 +175,67 @@ def run(ctx):
     loops = [n for n in mp.node.body if isinstance(n, ast.For)]
     ctx.require(len(loops) == 1, "match_packages: request loop not found")
     lp = loops[0]
+    ctx.require(isinstance(lp.target, ast.Tuple) and len(lp.target.elts) == 2 and all(isinstance(e, ast.Name) for e in lp.target.elts), "match_packages: request loop does not unpack (spec, written keywords)")
+    dep = lp.target.elts[0].id
     # ---- R1 validation barrier ---------------------------------------------------------------------
-    ta = Taint(ctx, mp)
-    st = {"previous": True, "cc_arches": False, "written": False}
+    # the reference set, by what it is built from (its local name is free)
+    vm = M.one(mp.node.body, "$va = frozenset(repo.known_arches)")
+    valid = vm["va"] if vm else None
+    # loop-carried arch collections (today: what '^' copies): set before the loop, re-set inside it from a non-constant
+    pre = {}
+    for s in mp.node.body:
+        if s is lp:
+            break
+        if isinstance(s, ast.Assign):
+            pre.update({t.id: s.value for t in s.targets if isinstance(t, ast.Name)})
+        elif isinstance(s, ast.AnnAssign) and isinstance(s.target, ast.Name) and s.value is not None:
+            pre[s.target.id] = s.value
+    carried = {n.targets[0].id for n in A.walk(lp) if isinstance(n, ast.Assign) and len(n.targets) == 1 and isinstance(n.targets[0], ast.Name)
+               and n.targets[0].id in pre and not isinstance(n.value, ast.Constant)}
+    ta = Taint(ctx, mp, valid, carried)
+    st = {"cc_arches": False}
+    for c in carried:  # induction over the lines: holds before the first line iff it starts out empty
+        st[c] = A.is_const(pre[c], None) or ta.ev(pre[c], {})
     ta.block(lp.body, st)
     ctx.check("R1", mp, len(ta.yields) >= 2, f"yield-sites:{len(ta.yields)}", f"{len(ta.yields)} yield sites of KeywordRequest")
+
+    def on_empty_branch(s):
+        """the yield sits under `if not <the yielded keywords>`"""
+        kwarg = s.value.value.args[1]
+        return any(isinstance(p, ast.If) and isinstance(p.test, ast.UnaryOp) and isinstance(p.test.op, ast.Not) and A.unparse(p.test.operand) == A.unparse(kwarg) for p in A.parents(s))
+
     for s, ok, txt in ta.yields:
-        ctx.check("R1", mp, ok, f"yield-validated@{'empty' if any(isinstance(p, ast.If) and A.unparse(p.test) == 'not keywords' for p in A.parents(s)) else 'main'}", f"`yield KeywordRequest(pkg, {txt})`: every arch in it has been checked against the repo's known arches",
+        ctx.check("R1", mp, ok, f"yield-validated@{'empty' if on_empty_branch(s) else 'main'}", f"`yield KeywordRequest(pkg, {txt})`: every arch in it has been checked against the repo's known arches",
                   f"match_packages yields `{txt}` on a path where some of its arches were never checked against repo.known_arches (arches that enter through '*' expansion, '^' copy, cc arches or the all-arches candidates come from ebuild KEYWORDS and may name an arch the repository dropped)", node=s)
     ctx.check("R1", mp, ta.barriers >= 2, f"barriers:{ta.barriers}", f"{ta.barriers} validation barriers (`frozenset(X) - valid_arches` -> raise) recognised")
-    t = A.unparse(mp.node)
-    ctx.check("R1", mp, "valid_arches = frozenset(repo.known_arches)" in t, "known-arches-source", "the reference set is the repository's known arches")
+    ctx.check("R1", mp, vm is not None, "known-arches-source", "the reference set is the repository's known arches")
     ctx.floor("R1", 5)
+
+    # the names the yielded request is built from (roles: the selected version, the arches of the line)
+    main_y = [s for s, _, _ in ta.yields if not any(isinstance(p, ast.If) for p in A.parents(s) if p is not lp and isinstance(p, ast.If))]
+    ys = [s.value.value for s in (main_y or [s for s, _, _ in ta.yields])]
+    ctx.require(bool(ys) and all(isinstance(a, ast.Name) for a in ys[0].args), "match_packages: `yield KeywordRequest(<pkg>, <keywords>)` of plain locals not found")
+    pkg, kw = ys[0].args[0].id, ys[0].args[1].id
+    E = {"pkg": pkg, "kw": kw, "dep": dep}
 
     # ---- R2 prefix keywords never suggested ----------------------------------------------------------------
     sk = P.func(MOD, "suggested_keywords")
     for r in A.returns(sk.node):
         txt = A.unparse(r.value)
-        ok = "filter_prefix_keywords(" in txt and txt.startswith(("frozenset(filter_prefix_keywords(", "filter_prefix_keywords("))
+        ok = r.value is not None and bool(M.pat("frozenset(filter_prefix_keywords($_))").matches(r.value) or M.pat("filter_prefix_keywords($_)").matches(r.value))
         ctx.check("R2", sk, ok, f"return-filtered:{txt[:40]}", f"`return {txt[:50]}` passes everything through filter_prefix_keywords",
                   f"suggested_keywords returns `{txt}` without the prefix-keyword filter: keywording suggestions name prefix arches (x86-macos, amd64-linux)", node=r)
     fp = P.func(MOD, "filter_prefix_keywords")
-    ctx.check("R2", fp, A.unparse(fp.node.body[-1]) == "return [x for x in keywords if '-' not in x]", "prefix-is-dash", "a prefix keyword is one containing '-'")
+    fr = A.returns(fp.node)
+    ctx.check("R2", fp, len(fr) == 1 and fr[0] is eff(fp.node.body)[-1] and bool(M.pat("return [$x for $x in keywords if '-' not in $x]").matches(fr[0])), "prefix-is-dash", "a prefix keyword is one containing '-'")
     ctx.floor("R2", 2)
 
     # ---- R3 only-new decision table ----------------------------------------------------------------------------
     on = [n for n in A.walk(lp) if isinstance(n, ast.If) and A.unparse(n.test) == "only_new"]
     ctx.require(len(on) == 1, "match_packages: only_new branch not found")
-    comps = [v for t_, v, _ in A.assignments(on[0], "keywords") if isinstance(v, ast.ListComp)]
+    comps = [v for t_, v, _ in A.assignments(on[0], kw) if isinstance(v, ast.ListComp)]
     ctx.require(len(comps) == 1, "match_packages: only_new filter not found")
-    rows = only_new_table(mp, comps[0])
+    rows = only_new_table(mp, comps[0], pkg)
     bad = []
     for (Aq, Bq, S), kept in sorted(rows.items()):
         present = Aq if S else (Aq or Bq)
@@ -192,39 +243,49 @@ def run(ctx):
             bad.append(f"{'stabilizing' if S else 'keywording'}: arch {'stable' if Aq else ''}{'+' if Aq and Bq else ''}{'~testing' if Bq else ''}{'absent' if not (Aq or Bq) else ''} here -> {'kept' if kept else 'dropped'}")
     ctx.check("R3", mp, not bad, f"only-new-table:{bad[0][:60] if bad else 'ok'}", "only-new keeps an arch iff the selected version does not carry it yet (stable arch when stabilizing; arch or ~arch when keywording) — all 8 rows",
               f"the only-new predicate is wrong for: {'; '.join(bad)}", node=comps[0])
-    ctx.check("R3", mp, "keyworded_already = True" in A.unparse(on[0]) and "PackageListDoneAlready" in t, "all-present-reported", "a request whose arches are all present already is reported as done")
+    done = M.one(on[0].body, "if not $kw:\n    $flag = True\n    continue", E)
+    ctx.check("R3", mp, done is not None and M.has(mp.node.body, "if $flag:\n    raise PackageListDoneAlready($_)", done.env), "all-present-reported", "a request whose arches are all present already is reported as done")
     ctx.floor("R3", 2)
 
     # ---- R4 stabilization spec check ----------------------------------------------------------------------------------
-    first = lp.body[0]
-    ok = isinstance(first, ast.If) and A.unparse(first.test) == "stable and (dep.op != '=' or dep.slot)" and isinstance(first.body[0], ast.Raise) and "PackageInvalid" in A.unparse(first.body[0])
+    first = eff(lp.body)[0]
+    ok = bool(M.pat("if stable and ($dep.op != '=' or $dep.slot):\n    raise PackageInvalid($_)").matches(first, E)) and isinstance(eff(first.body)[0], ast.Raise)
     ctx.check("R4", mp, ok, "spec-rejected-first", "when stabilizing, a spec that is not a plain =cpv is rejected before anything is matched",
               "match_packages no longer rejects non-'=' / slotted specs first when stabilizing", node=first)
-    ctx.check("R4", mp, "pkg = matched[0] if stable and matched else select_best_version(matched)" in t and "raise PackageNoMatch" in t, "no-match-raises", "an unmatched spec raises PackageNoMatch")
+    ctx.check("R4", mp, M.has(lp.body, "$pkg = $m[0] if stable and $m else select_best_version($m)\nif $pkg is None:\n    raise PackageNoMatch($_)", E), "no-match-raises", "an unmatched spec raises PackageNoMatch")
     ctx.floor("R4", 2)
 
     # ---- R5 suggestion semantics ----------------------------------------------------------------------------------------
-    ts = A.unparse(sk.node)
-    ctx.check("R5", sk, "disallowed = '-~' if stable else '-'" in ts and "if x[0] not in disallowed" in ts and "for other in repo.match(pkg.unversioned_atom)" in ts, "candidates", "candidates: stable (stabilizing) / any non-negative (keywording) keywords of the package's versions")
+    cand = M.one(sk.node.body, "$dis = '-~' if stable else '-'\n$cand = {$x.lstrip('~') for $other in repo.match(pkg.unversioned_atom) for $x in $other.keywords if $x[0] not in $dis}")
+    ctx.check("R5", sk, cand is not None, "candidates", "candidates: stable (stabilizing) / any non-negative (keywording) keywords of the package's versions")
+    CE = {"cand": cand["cand"]} if cand else {}
     ifs = [n for n in sk.node.body if isinstance(n, ast.If) and A.unparse(n.test) == "stable"]
     ctx.require(len(ifs) == 1, "suggested_keywords: stable branch not found")
-    tb = A.unparse(ifs[0].body[-1])
-    te = A.unparse(ifs[0].orelse[-1]) if ifs[0].orelse else ""
-    tbody = A.unparse(ast.Module(body=ifs[0].body, type_ignores=[]))
-    ctx.check("R5", sk, tb.startswith("candidates &= ") and "for x in pkg.keywords if x[0] == '~'" in tbody, "stable-needs-testing-here", "stabilizing: only arches that are ~testing on this version",
+    arm, other = eff(ifs[0].body), eff(ifs[0].orelse)
+    tb = A.unparse(arm[-1]) if arm else ""
+
+    def testing_here(body):
+        """some comprehension over `pkg.keywords` whose (first) condition is `<element>[0] == '~'`"""
+        for n in A.walk_body(body):
+            if isinstance(n, ast.comprehension) and isinstance(n.target, ast.Name) and A.unparse(n.iter) == "pkg.keywords" and n.ifs \
+                    and M.pat("$x[0] == '~'").matches(n.ifs[0], {"x": n.target.id}):
+                return True
+        return False
+
+    ctx.check("R5", sk, bool(arm) and bool(M.pat("$cand &= $_").matches(arm[-1], CE)) and testing_here(ifs[0].body), "stable-needs-testing-here", "stabilizing: only arches that are ~testing on this version",
               f"the stabilizing arm is `{tb[:80]}`", node=ifs[0])
-    ctx.check("R5", sk, te == "candidates -= {x.lstrip('~-') for x in pkg.keywords}", "keywording-needs-absent-here", "keywording: only arches this version does not mention at all")
+    ctx.check("R5", sk, bool(other) and bool(M.pat("$cand -= {$x.lstrip('~-') for $x in pkg.keywords}").matches(other[-1], CE)), "keywording-needs-absent-here", "keywording: only arches this version does not mention at all")
     ctx.floor("R5", 3)
 
     # ---- R6 narrowing ---------------------------------------------------------------------------------------------------------
-    ctx.check("R6", mp, "elif cc_arches:\n            keywords = [x for x in keywords if x in cc_arches]" in t, "cc-narrowing", "a line with keywords is narrowed to the cc arches")
-    ctx.check("R6", mp, "if not keywords:\n            keywords = list(cc_arches)" in t, "cc-inherited", "a line without keywords inherits the cc arches")
+    ctx.check("R6", mp, M.has(lp.body, "if $_:\n    ...\nelif cc_arches:\n    $kw = [$x for $x in $kw if $x in cc_arches]", E), "cc-narrowing", "a line with keywords is narrowed to the cc arches")
+    ctx.check("R6", mp, M.has(lp.body, "if not $kw:\n    $kw = list(cc_arches)", E), "cc-inherited", "a line without keywords inherits the cc arches")
     fa = [n for n in A.walk(lp) if isinstance(n, ast.If) and A.unparse(n.test) == "filter_arch"]
-    ok = len(fa) == 1 and A.unparse(fa[0].body[0]) == "keywords = [k for k in keywords if k in filter_arch]"
+    ok = len(fa) == 1 and bool(M.pat("$kw = [$k for $k in $kw if $k in filter_arch]").matches(eff(fa[0].body)[0], E))
     ctx.check("R6", mp, ok, "arch-filter", "the arch filter keeps only the listed arches")
-    main_y = [s for s, _, _ in ta.yields if not any(isinstance(p, ast.If) for p in A.parents(s) if p is not lp and isinstance(p, ast.If))]
     ctx.check("R6", mp, len(main_y) == 1 and fa and on and on[0].lineno < fa[0].lineno < main_y[0].lineno, "narrowing-before-yield", "only-new and arch-filter both precede the yield of a line")
-    ctx.check("R6", mp, "if allarches and stable and filter_arch:" in t and "keywords += [k for k in allarches_kw if k not in keywords]" in t, "allarches-readd", "all-arches candidates are re-added only for an arch-filtered stabilization")
+    readd = M.one(lp.body, "$kw += [$k for $k in $akw if $k not in $kw]", E)
+    ctx.check("R6", mp, readd is not None and M.has(lp.body, "if allarches and stable and filter_arch:\n    $akw = $_", readd.env), "allarches-readd", "all-arches candidates are re-added only for an arch-filtered stabilization")
     ctx.floor("R6", 5)
 
 
